@@ -89,5 +89,11 @@ TEXTS = {
         level_text="Fault enumeration by generated failure assignments: the moment x transition matrix of a single critical failure as fixed cases on every run plus generated sets (~130 quick, ~3600 thorough + 120 under the race detector). Exercises the real handleHooks / AwaitAll / runTasksAsHooks and the simulated executors' hook-task protocol (TriggerHook reply, BASIC_TASK_TERMINATED, final status).",
         level_note="Hook tasks are placed only at moments that occur first in the transition under test (a hook task runs once per environment); later weights of the failing pass at enter_/after_ are not claimed.",
     ),
+    "C10": dict(
+        engine="simworld",
+        technique="stateful property-based testing (rapid): generated start/stop/error/teardown histories over one environment of the whole real core, observed by probe calls at weights -1/+1 of every moment that snapshot the variable stack; oracle = per-run invariants over the ordered snapshots (visibility window of the run number, set-once and ordered timestamps, end timestamps however the run ends, no leakage into the next run) plus forwarded run events",
+        level_text="Generated-history search (~120 histories quick, ~3000 thorough, plus fixed histories for every way a run can end and every hook-failure placement) against the real before_event/after_event/leave_state code of the environment and the teardown path; the oracle only uses equality and ordering of the reported values.",
+        level_note="Not claimed: disappearance of run_start_time_ms after the run; disappearance of the run number after a run that ended by error or teardown (the statement ties it to after_STOP_ACTIVITY).",
+    ),
 }
 NA_REASONS = {}
